@@ -36,13 +36,12 @@ Proof.
          | |- context [hash32 s ?c] => let x := fresh "h" in generalize (hash32 s c); intro x
          end.
   cbv zeta.
+  (* the degenerate case is decided on the model's side; the source's own test (whatever its shape) follows by lia *)
   match goal with
-  | |- _ = (if ?c then _ else _) =>
-      match goal with
-      | |- context [if ?d then N.lxor _ _ else _] => replace c with d by lia; destruct d
-      end
-  end;
-    rewrite Z_of_N_lor, Z_of_N_land, Z_of_N_w64, Z_of_N_shiftl, ?Z_of_N_lxor; reflexivity.
+  | |- context [if ?d then N.lxor _ _ else _] => destruct d eqn:E
+  end; decide_ifs;
+    rewrite Z_of_N_lor, Z_of_N_land, Z_of_N_w64, Z_of_N_shiftl, ?Z_of_N_lxor;
+    first [ reflexivity | rewrite Z.lor_comm; reflexivity ].
 Qed.
 
 (* id.go calcID after `var fp = fingerprint(buf.Bytes())`: the meaning step and the final mask *)
